@@ -26,6 +26,7 @@ fn base(name: &str, clients: usize) -> EvCell {
             hold_client_events: true,
             hold_mutations: true,
             hold_acks: true,
+            update_latency: 0,
         },
         oracles: EvOracles { c05: true, convergence: true, c09: true, ..Default::default() },
         closure_rounds: 5,
@@ -102,6 +103,32 @@ pub fn cells(tier: Tier) -> Vec<CellPlan> {
     ];
     c.rounds = if q { 3 } else { 4 };
     v.push(plan(c, 1, 2.0));
+    // Update channel two rounds behind by default: events are queued on the client at the moment
+    // of the disconnect / stop without spending deviations.
+    for (name, stop) in [("lag2-reconnect", false), ("lag2-restart", true)] {
+        let mut c = base(name, 1);
+        c.env.update_latency = 2;
+        c.env.hold_updates = 0;
+        c.env.hold_mutations = false;
+        c.env.hold_acks = false;
+        c.env.hold_client_events = false;
+        c.tick_choice = false;
+        c.alphabet = vec![
+            EvOp::Nop,
+            EvOp::World(Op::Ins(0, TB)),
+            EvOp::World(Op::Rm(0, TB)),
+            EvOp::EmitS(SK::E1, Mode::Broadcast, None),
+            EvOp::EmitS(SK::T1, Mode::Broadcast, None),
+            if stop { EvOp::StopServer } else { EvOp::Disconnect(0) },
+            if stop { EvOp::StartServer } else { EvOp::Nop },
+            EvOp::Connect(0),
+        ];
+        c.alphabet.dedup();
+        c.init = vec![Op::Spawn(0, 1 << TA)];
+        c.rounds = if q { 6 } else { 7 };
+        c.closure_rounds = 6;
+        v.push(plan(c, if q { 0 } else { 1 }, 3.0));
+    }
     v
 }
 
